@@ -751,4 +751,3 @@ func c34Churn(dir string, round int, rng *kit.RNG) error {
 	}
 	return nil
 }
-
